@@ -32,7 +32,7 @@ from cassandra.policies import SimpleConvictionPolicy, RoundRobinPolicy, HostDis
 META = dict(
     level='model_checking',
     level_text='every placement of a concurrent shutdown() at the environment call-outs of the control connection\'s connect sequence, and every order of session shutdown / node-up event / cluster shutdown within the bounds, is explored (solver-forked flags) through the real methods; per path the obligation is that every connection opened is closed, that nothing new is opened or scheduled after shutdown, and that shutdown is idempotent and ordered',
-    level_note='stand-in Cluster/Session objects expose exactly what the real methods read; pre-emption only at environment call-outs (blocking factory, connection requests, metadata refresh), not inside lock-free regions of driver code; pools themselves are C12',
+    level_note='stand-in Cluster/Session objects expose exactly what the real methods read; pre-emption at environment call-outs (blocking factory, connection requests, metadata refresh) and, in job control-race, a Cluster.shutdown() by another thread at any acquire/release of the control connection's two locks (with every host of the plan refusing as one of the cases, so that the retry-scheduling branch is reached); not inside lock-free regions of driver code; pools themselves are C12',
     technique='symbolic execution (sx, solver-forked scheduler flags) of the real cassandra.cluster.ControlConnection._reconnect/_try_connect/_set_new_connection/shutdown, Session.shutdown/submit/add_or_renew_pool and Cluster.shutdown over scripted connections and recorders',
     bounds=dict(quick='control connection: 1..2 hosts in the plan (first may fail to connect), shutdown possible at each of 5 call-outs of the connect sequence or not at all, control-connection or cluster shutdown; session: shutdown before/after a node-up event, 2 hosts; cluster: 0..2 sessions, shutdown twice',
                 thorough='same'),
@@ -71,8 +71,10 @@ class CtlConn(object):
 
 
 class CtlWorld(object):
-    def __init__(self, V):
+    def __init__(self, V, race=False):
         self.V = V
+        self.sched_down = False
+        self.attempts_after_shutdown = 0
         base = c42.World()
         self.cluster = base.cluster
         self.meta = base.meta
@@ -87,7 +89,8 @@ class CtlWorld(object):
         cl._default_load_balancing_policy = types.SimpleNamespace(make_query_plan=lambda: list(self.plan))
         cl.connection_factory = self.factory
         cl.executor = types.SimpleNamespace(submit=lambda fn, *a, **k: fn(*a, **k))
-        cl.scheduler = types.SimpleNamespace(schedule=lambda *a, **k: self.scheduled.append(a), shutdown=lambda: None)
+        # cassandra.cluster._Scheduler ignores what is scheduled after its shutdown()
+        cl.scheduler = types.SimpleNamespace(schedule=lambda *a, **k: None if self.sched_down else self.scheduled.append(a), shutdown=lambda: None)
         cl.reconnection_policy = types.SimpleNamespace(new_schedule=lambda: iter([1.0, 2.0]))
         self.scheduled = []
         self.meta.refresh = lambda *a, **k: self.callout('schema-refresh')
@@ -104,25 +107,44 @@ class CtlWorld(object):
         ctl._event_schedule_times = {}
         ctl._time = types.SimpleNamespace(time=lambda: 0.0, sleep=lambda s: None)
         cl.control_connection = ctl
-        self.via_cluster = V.flag('shutdown_via_cluster')
+        self.via_cluster = True if race else V.flag('shutdown_via_cluster')
         self.fail_first = V.flag('first_host_refuses')
+        self.fail_all = race and self.fail_first and V.flag('every_host_refuses')
         hosts = [Host(DefaultEndPoint('10.0.0.%d' % (i + 1), 9042), SimpleConvictionPolicy) for i in range(2)]
         self.plan = hosts if self.fail_first else hosts[:1]
+        if race:
+            # sync-point pre-emption: Cluster.shutdown() by another thread at any acquire/release of the control
+            # connection's locks reached while the connecting thread holds none of them
+            def act(*a):
+                self.shutdown_at = 'sync:%s' % '/'.join(str(x) for x in pre.log[-1])
+                self.do_shutdown()
+            pre = kit.Preempter(V, None, act, only_unlocked=True, enabled=lambda: self.shutdown_at is None and not ctl._is_shutdown)
+            ctl._lock = kit.SchedLock('ctl._lock', pre)
+            ctl._reconnection_lock = kit.SchedLock('ctl._reconnection_lock', pre)
+            self.race = True
+        else:
+            self.race = False
 
     def do_shutdown(self):
         if self.via_cluster:
+            # Cluster.shutdown(): flag, scheduler.shutdown(), control_connection.shutdown()
             self.cluster.is_shutdown = True
+            self.sched_down = True
         self.ctl.shutdown()
 
     def callout(self, what):
         """an environment call made by the connecting thread: another thread may shut down now"""
         self.callouts += 1
-        if self.shutdown_at is None and not self.ctl._is_shutdown and self.V.flag('shutdown_during_%s_%d' % (what, self.callouts)):
+        if not self.race and self.shutdown_at is None and not self.ctl._is_shutdown and self.V.flag('shutdown_during_%s_%d' % (what, self.callouts)):
             self.shutdown_at = what
             self.do_shutdown()
 
     def factory(self, endpoint, *a, **k):
+        if self.ctl._is_shutdown:
+            self.attempts_after_shutdown += 1
         self.callout('connect')
+        if self.fail_all:
+            raise OSError('connection refused')
         if self.fail_first and not self.conns and endpoint.address == '10.0.0.1' and not getattr(self, '_refused', False):
             self._refused = True
             raise OSError('connection refused')
@@ -131,11 +153,11 @@ class CtlWorld(object):
         return c
 
 
-def h_control(V):
-    w = CtlWorld(V)
+def h_control(V, race=False):
+    w = CtlWorld(V, race=race)
     try:
         w.ctl._reconnect()
-        outcome = 'connected'
+        outcome = 'connected' if not w.fail_all else 'retry-scheduled'
     except DriverException:
         outcome = 'aborted'
     except cc.NoHostAvailable:
@@ -146,7 +168,13 @@ def h_control(V):
         w.do_shutdown()
     V.tag('shutdown_at', w.shutdown_at or ('after' if late else 'never'))
     V.tag('outcome', outcome)
+    V.check(w.attempts_after_shutdown == 0, 'control:no-connection-attempt-started-after-shutdown',
+            note='%d attempts (shutdown at %r)' % (w.attempts_after_shutdown, w.shutdown_at))
     if w.ctl._is_shutdown:
+        # a reconnection that was scheduled and not cancelled would run later
+        # (a shut-down scheduler runs nothing any more)
+        live_handlers = [] if w.sched_down else [a for a in w.scheduled if not getattr(getattr(a[1], '__self__', None), '_cancelled', False)]
+        V.check(not live_handlers, 'control:no-reconnection-left-scheduled-after-shutdown', note='%d scheduled (shutdown at %r)' % (len(live_handlers), w.shutdown_at))
         for c in w.conns:
             V.check(c.is_closed, 'control:every-connection-closed-after-shutdown',
                     note='connection #%d (opened %s shutdown at %r) left open' % (c.idx, 'before/around', w.shutdown_at))
@@ -157,6 +185,8 @@ def h_control(V):
     else:
         live = [c for c in w.conns if not c.is_closed]
         V.check(len(live) == (1 if outcome == 'connected' else 0), 'control:exactly-one-live-connection-when-running', note='%d live' % len(live))
+        if outcome == 'retry-scheduled':
+            V.check(len(w.scheduled) == 1, 'control:failed-reconnect-schedules-one-retry-when-running', note='%d scheduled' % len(w.scheduled))
         V.check(outcome != 'connected' or w.ctl._connection is live[0], 'control:the-live-connection-is-the-current-one')
 
 
@@ -286,4 +316,4 @@ def h_cluster(V):
 
 
 def jobs(tier):
-    return [Job('control', 'h_control', {}), Job('session', 'h_session', {}), Job('cluster', 'h_cluster', {})]
+    return [Job('control', 'h_control', {}), Job('control-race', 'h_control', dict(race=True)), Job('session', 'h_session', {}), Job('cluster', 'h_cluster', {})]
